@@ -44,6 +44,8 @@ SLICES = {
     13: ('sections', dict(sections=True)),
     15: ('select', dict(select=True)),
     1: ('mod_in_product', dict(mod_in_product=True)),
+    2: ('d_exponent_lit', dict(d_exponent_lit=True, kinds=('real64',), kind_decl='env', mix_kinds=False)),
+    4: ('kind_single_by_name', dict(kind_decl='jprb_mod', kinds=('jprm',), mix_kinds=False)),
 }
 
 
@@ -156,10 +158,12 @@ def _run(case, slice_name, wd, res, cnt):
     bad = {k: v for k, v in outcomes.items() if v}
     seen = set()
     for tagp, (key, msg, wit) in bad.items():
-        only = '' if len(bad) == 2 and len({v[0] for v in bad.values()}) == 1 else f':only-{tagp}'
-        if slice_name != 'core' and key.startswith('f2c:output-differs:'):
-            key = 'f2c:output-differs'       # one key per gated mechanism, whatever output shows it first
-        key = f'{key}:{slice_name}{only}'
+        if slice_name != 'core':
+            # one key per (stage, gated mechanism): the slice *is* the mechanism
+            key = ':'.join(key.split(':')[:2]) + f':{slice_name}'
+        else:
+            only = '' if len(bad) == 2 and len({v[0] for v in bad.values()}) == 1 else f':only-{tagp}'
+            key = f'{key}:core{only}'
         if key in seen:
             continue
         seen.add(key)
